@@ -503,9 +503,22 @@ def run_connect(cfg, clock):
 
 KINDS = ("found", "absent", "unsupported", "invalid", "commerr", "ioerror", "badtype")
 LISTEN_KINDS = ("found", "none", "unsupported", "invalid", "ioerror")
-TECH = {"found": ("A", "B", "F", "D"), "absent": ("A", "B", "F", "D"), "unsupported": ("A", "B", "F", "D", "X"),
-        "invalid": ("A", "D"), "commerr": ("A", "B", "F", "D"), "ioerror": ("A", "B", "F", "D"),
+# technology of a target and, for the attributes with a documented size, their length at both edges of the range:
+# "D<n>" an active-mode (DEP) target with an n byte atr_req (valid: 16..64), "A<n>" a Type A target with an n byte
+# sel_req (valid: 4, 7, 10), "A" / "B" / "F" plain targets, "X" an unknown technology letter
+VALID_TECH = ("A", "A4", "A7", "A10", "B", "F", "D16", "D17", "D63", "D64")
+TECH = {"found": VALID_TECH, "absent": VALID_TECH, "unsupported": VALID_TECH + ("X",),
+        "invalid": ("A3", "A5", "A11", "D15", "D65"), "commerr": VALID_TECH, "ioerror": VALID_TECH,
         "badtype": ("L", "S", "N")}        # not a RemoteTarget: a LocalTarget, a brty string, None
+
+
+def arg_of(tech):
+    """what the validator is told about the argument: which sized attribute it carries and how long it is"""
+    if tech[0] == "D" and tech[1:]:
+        return dict(t="dep", n=int(tech[1:]))
+    if tech[0] == "A" and tech[1:]:
+        return dict(t="sel", n=int(tech[1:]))
+    return dict(t="-", n=0)
 
 
 class SenseEnv(clfdev.Nothing):
@@ -533,8 +546,13 @@ class SenseEnv(clfdev.Nothing):
             raise IOError(errno.EIO, "simulated host link failure")
         return None
 
+    dep_len = None
+
     def listen(self, dev, kind, target, timeout):
         k = self.kinds[0] if self.kinds else "none"
+        if kind == "dep" and self.dep_len is not None:
+            # an initiator activates us with an ATR_REQ of this length (listen() accepts 16..64 bytes)
+            return dict(brty="424F", atr_req=bytes(self.dep_len), atr_res=bytes(target.atr_res), dep_req=b"\xD4\x06\x00\x00\x00")
         if k == "found":
             return dict(brty=target.brty, sensf_res=bytes(19), tt3_cmd=b"\x06" + bytes(8))
         if k == "unsupported" or kind == "ttb":     # no nfcpy driver can listen as a Type B target
@@ -559,12 +577,14 @@ def make_target(i, kind, tech):
         return None
     if tech == "X":
         t = nfc.clf.RemoteTarget("106X")
-    elif tech == "D":
-        n = 15 if kind == "invalid" else 16
+    elif tech[0] == "D":
+        n = int(tech[1:]) if tech[1:] else (15 if kind == "invalid" else 16)
         t = nfc.clf.RemoteTarget("106A", atr_req=bytearray(n))
-    elif tech == "A":
+    elif tech[0] == "A":
         t = nfc.clf.RemoteTarget("106A")
-        if kind == "invalid":
+        if tech[1:]:
+            t.sel_req = bytearray(int(tech[1:]))
+        elif kind == "invalid":
             t.sel_req = bytearray(5)
     elif tech == "B":
         t = nfc.clf.RemoteTarget("106B")
@@ -593,7 +613,7 @@ class SenseSession(object):
         return "remote" if isinstance(t, nfc.clf.RemoteTarget) else "local"
 
     def emit(self, a, **kw):
-        rec = dict(a=a, kinds=[], iters=0, res="", idx=0, sent="", muted=False, target=self.target_state(),
+        rec = dict(a=a, kinds=[], args=[], iters=0, res="", idx=0, sent="", muted=False, target=self.target_state(),
                    field=bool(self.dev.field), nsense=0, interval=0, cycle=0, pauses=[])
         rec.update(kw)
         self.ev.append(rec)
@@ -627,7 +647,8 @@ class SenseSession(object):
                 first_mute = bool(log) and log[0][0] == "mute"
                 how_sent = "no-driver-call" if not log else ("mute-first" if first_mute else "no-mute-first")
                 per_round = len(attempts) // iters if res == "none" else len(attempts)
-                self.emit("Sense", kinds=list(kinds), iters=iters, res=res, idx=idx, muted=muted,
+                self.emit("Sense", kinds=list(kinds), args=[arg_of(x) for x in techs], iters=iters, res=res, idx=idx,
+                          muted=muted,
                           nsense=len(attempts), sent=how_sent,
                           interval=int(round(interval * 1e6)), cycle=int(round(per_round * cost * 1e6)),
                           pauses=[int(round(x * 1e6)) for x in self.clock.sleep_log[s0:]])
@@ -635,7 +656,10 @@ class SenseSession(object):
             elif st["op"] == "listen":
                 k = st["kind"]
                 self.envbox.kinds = (k,)
-                if k == "unsupported":
+                self.envbox.dep_len = st.get("dep_len")
+                if st.get("dep_len") is not None:
+                    tl = nfc.clf.LocalTarget("106A", atr_res=bytearray(20), sensf_res=bytearray(19))
+                elif k == "unsupported":
                     tl = nfc.clf.LocalTarget("106B")
                 elif k == "invalid":
                     tl = nfc.clf.LocalTarget("xxx")
@@ -652,7 +676,8 @@ class SenseSession(object):
                     res = "IOError"
                 except Exception as e:              # noqa
                     res = "raise:" + type(e).__name__
-                self.emit("Listen", kinds=[k], res=res)
+                self.emit("Listen", kinds=[k], res=res,
+                          args=[dict(t="dep", n=st["dep_len"])] if st.get("dep_len") is not None else [dict(t="-", n=0)])
             elif st["op"] == "exchange":
                 try:
                     r = self.clf.exchange(bytearray(b"\x30\x00"), 0.01)
@@ -713,6 +738,26 @@ def sense_sessions(tier, seed, clock):
                                               dict(op="sense", kinds=[k2], techs=techs_for([k2], rnd), iters=1),
                                               dict(op="exchange")]
                 out.append(SenseSession("l%d:%s:listen-%s,sense-%s" % (n, how, k, k2), steps, clock))
+    # documented size limits at both edges, in first / middle / last position of a several-target call
+    for pos in (0, 1, 2):
+        for tech in ("D15", "D16", "D17", "D63", "D64", "D65", "A3", "A4", "A5", "A7", "A10", "A11"):
+            for others in ("absent", "found"):
+                n += 1
+                a = arg_of(tech)
+                ok = (16 <= a["n"] <= 64) if a["t"] == "dep" else a["n"] in (4, 7, 10)
+                kinds = [others] * 3
+                kinds[pos] = "absent" if ok else "invalid"
+                techs = ["F", "B", "A"]
+                techs[pos] = tech
+                how = ("remote", "local", "none")[n % 3]
+                steps = capture_steps(how) + [dict(op="sense", kinds=kinds, techs=techs, iters=1), dict(op="exchange")]
+                out.append(SenseSession("e%d:%s:%s@%d/%s" % (n, how, tech, pos, others), steps, clock))
+    for dl in (15, 16, 17, 63, 64, 65):        # ATR_REQ length of an initiator that activates us while we listen
+        for how in ("remote", "none"):
+            n += 1
+            steps = capture_steps(how) + [dict(op="listen", kind="found" if 16 <= dl <= 64 else "none", dep_len=dl),
+                                          dict(op="exchange")]
+            out.append(SenseSession("d%d:%s:listen-dep%d" % (n, how, dl), steps, clock))
     # pauses: iterations x interval (none, tiny, default, shorter / longer than a round) x how long a round takes
     cost = 0.03125
     for iters in (1, 2, 3, 5):
@@ -745,6 +790,8 @@ def classify(tr, line, act, why, what):
     if kind == "inv":
         if "ArgCheck" in why[1]:                  # one defect (late argument validation) shows in several clauses
             return "sense:inv:ArgCheck@%s" % act
+        if "Raises" in why[1]:                    # an exception the contract does not allow for this target list
+            return "sense:inv:Raises@%s:%s" % (act, ev.get("res", ""))
         return "sense:inv:%s@%s" % (",".join(why[1]), act)
     return "sense:%s@%s:res=%s,sent=%s,target=%s,field=%s" % (kind, act, ev.get("res", ""), ev.get("sent", ""),
                                                             ev.get("target", ""), ev.get("field", ""))
